@@ -56,6 +56,8 @@ impl Kind {
 pub enum Elem {
     F64,
     F32,
+    /// `yelem::Yf`: an f64 newtype whose operators are yield points (the numeric-type seam)
+    Yf,
 }
 
 #[derive(Serialize, Deserialize, Clone, Copy, Debug, PartialEq, Eq, PartialOrd, Ord)]
@@ -75,6 +77,10 @@ pub enum DimTy {
     Ix1,
     Ix2,
     Ix3,
+    /// static ranks 4 and 5: owned storage only (keeps the instantiation matrix affordable);
+    /// with rank-3 queries the output rank reaches 6 and 7 (= dynamic)
+    Ix4,
+    Ix5,
     IxDyn,
 }
 
@@ -369,6 +375,9 @@ pub struct StubLog {
     pub panicked: bool,
     /// callbacks of this operation that were suspended by the scheduler (buggify yields)
     pub yields: u32,
+    /// element operations (arithmetic / comparison on `Yf`) at which this operation was suspended
+    #[serde(default)]
+    pub elem_yields: u32,
 }
 
 #[derive(Serialize, Deserialize, Clone, Debug, PartialEq)]
